@@ -6,10 +6,21 @@ from ..core import hx, lst, WILD
 from ..ref import P, L, to32, le
 
 REQUIRED = ['seed:corner', 'seed:random', 'msg:len0', 'msg:len128', 'msg:long', 'ctx:0', 'ctx:255', 'ctx:256-refused',
-            'ctx:1000-refused', 'keypair:match', 'keypair:mismatch', 'keypair:mismatch-torsion', 'accept:own', 'reject:flip-key', 'reject:flip-msg',
+            'ctx:1000-refused', 'keypair:match', 'keypair:mismatch', 'keypair:mismatch-torsion', 'keypair:pkcs8', 'keypair:mismatch-undecodable', 'accept:own', 'reject:flip-key', 'reject:flip-msg',
             'reject:flip-ctx', 'reject:flip-R', 'reject:flip-S', 'hazmat:passthrough', 'batch:own']
 
 MSG_LENS = [0, 1, 63, 64, 65, 111, 112, 127, 128, 129]
+
+
+def keypair_import(ctx, seed, pub, Ab, ok, cls):
+    """the 64-byte secret||public import in each of its public forms: from_keypair_bytes, the PKCS#8 KeypairBytes
+    conversion and a PKCS#8 v2 DER document carrying the public key"""
+    cls = cls if isinstance(cls, list) else [cls]
+    ctx.add('sig.from_keypair', (seed + pub).hex(), expect=(['ok', Ab.hex()] if ok else ['err']), cls=cls)
+    e2 = ['ok', Ab.hex(), seed.hex()] if ok else ['err']
+    ctx.add('sig.pkcs8_kp', seed.hex(), pub.hex(), expect=e2, cls=cls + ['keypair:pkcs8'])
+    der = bytes.fromhex('3051020101300506032b657004220420') + seed + bytes.fromhex('812100') + pub
+    ctx.add('sig.pkcs8_der', der.hex(), expect=e2, cls=cls + ['keypair:pkcs8'])
 
 
 def flip(b, rng):
@@ -54,24 +65,45 @@ def gen(ctx, size, long_msgs=False):
         ctx.add('misc.ctx', seed.hex(), hx(cb), expect=['ok', hx(cb), seed.hex()], cls=sc)
         ctx.add('misc.ctx', seed.hex(), hx(vals.rb(rng, 256)), expect=['err'], cls='ctx:256-refused')
         # keypair import
-        ctx.add('sig.from_keypair', (seed + Ab).hex(), expect=['ok', Ab.hex()], cls='keypair:match')
+        keypair_import(ctx, seed, Ab, Ab, True, 'keypair:match')
+        # no public half at all (PKCS#8 v1), and the documents this crate writes itself
+        ctx.add('sig.pkcs8_kp', seed.hex(), '~', expect=['ok', Ab.hex(), seed.hex()], cls='keypair:pkcs8')
+        v1 = bytes.fromhex('302e020100300506032b657004220420') + seed
+        ctx.add('sig.pkcs8_der', v1.hex(), expect=['ok', Ab.hex(), seed.hex()], cls='keypair:pkcs8')
+        spki = bytes.fromhex('302a300506032b6570032100') + Ab
+        ctx.add('sig.spki_der', spki.hex(), expect=['ok', Ab.hex()], cls='keypair:pkcs8')
+        v2 = bytes.fromhex('3051020101300506032b657004220420') + seed + bytes.fromhex('812100') + Ab
+        ctx.add('sig.pkcs8_encode', seed.hex(), expect=[v2.hex(), spki.hex(), seed.hex(), Ab.hex()], cls='keypair:pkcs8')
         other = ref.ed_public(vals.rb(rng, 32)) if rng.random() < 0.5 else flip(Ab, rng)
         if other != Ab:
-            ctx.add('sig.from_keypair', (seed + other).hex(), expect=['err'], cls='keypair:mismatch')
+            keypair_import(ctx, seed, other, Ab, False, 'keypair:mismatch')
+        # a public half that is not a curve point at all
+        while True:
+            junk = vals.rb(rng, 32)
+            if ref.ed_decompress(junk) is None:
+                break
+        keypair_import(ctx, seed, junk, Ab, False, ['keypair:mismatch', 'keypair:mismatch-undecodable'])
+        oneoff = bytearray(Ab)
+        for _t in range(64):
+            oneoff = bytearray(Ab)
+            oneoff[rng.randrange(32)] ^= 1 << rng.randrange(8)
+            if ref.ed_decompress(bytes(oneoff)) is None:
+                keypair_import(ctx, seed, bytes(oneoff), Ab, False, ['keypair:mismatch', 'keypair:mismatch-undecodable'])
+                break
         # a public half that encodes the same point non-canonically or its negation must not be accepted either
         neg = bytes(Ab[:31]) + bytes([Ab[31] ^ 0x80])
-        ctx.add('sig.from_keypair', (seed + neg).hex(), expect=['err'], cls='keypair:mismatch')
+        keypair_import(ctx, seed, neg, Ab, False, 'keypair:mismatch')
         # related-but-different public halves: the derived point translated by each 8-torsion point, small multiples
         for j in (range(1, 8) if rng.random() < 0.5 else [rng.randrange(1, 8)]):
             tb = ref.ed_compress(ref.aff_add(A, ref.TORSION[j]))
-            ctx.add('sig.from_keypair', (seed + tb).hex(), expect=['err'], cls=['keypair:mismatch', 'keypair:mismatch-torsion'])
+            keypair_import(ctx, seed, tb, Ab, False, ['keypair:mismatch', 'keypair:mismatch-torsion'])
         for mult in (2, 8, L - 1, L + 1):
             mb = ref.ed_compress(ref.aff_mul(mult % (8 * L), A))
             if mb != Ab:
-                ctx.add('sig.from_keypair', (seed + mb).hex(), expect=['err'], cls='keypair:mismatch')
+                keypair_import(ctx, seed, mb, Ab, False, 'keypair:mismatch')
         for tb in (ref.ed_compress(ref.IDENT), ref.ed_compress(ref.TORSION[4]), ref.ed_compress(ref.B)):
             if tb != Ab:
-                ctx.add('sig.from_keypair', (seed + tb).hex(), expect=['err'], cls='keypair:mismatch')
+                keypair_import(ctx, seed, tb, Ab, False, 'keypair:mismatch')
         # sign
         lens = [rng.choice(MSG_LENS), rng.choice(MSG_LENS)]
         if long_msgs and rng.random() < 0.1:
